@@ -65,6 +65,8 @@ type HarnessResult struct {
 	Forks        int64
 	Truncated    bool
 	BranchQ      int64
+	CrossChecked int64
+	CrossUnknown int64
 	ForkSites    map[string]int
 	Params       map[string]int
 	AssertQ      int64
@@ -212,6 +214,8 @@ func Explore(prog *Program, harness string, opts ExploreOpts) (*HarnessResult, e
 		res.Forks += e.Stats.Forks
 		res.BranchQ += e.Stats.BranchQueries
 		res.AssertQ += e.Stats.AssertQueries
+		res.CrossChecked += e.Stats.CrossChecked
+		res.CrossUnknown += e.Stats.CrossUnknown
 		for k := range e.Stats.FnSeen {
 			res.Functions[k] = true
 		}
